@@ -95,8 +95,10 @@ def build_session(rng, idx, abstract, on, force=None):
                 # distinct statement names so both Parses are kept; only the last is executed unnamed
                 for i, p in enumerate(parts):
                     p['name'] = 'st%d_%d' % (idx, i)
-            steps.append({'kind': 'batch', 'parts': parts})
-            meta.append({'m': 'msg', 'proto': 'batch', 'kinds': list(st['kinds']), 'sql': ' | '.join(sqls), 'pos': pos, 'spelling': sp})
+            flush = st.get('arg') == 'flush'
+            steps.append({'kind': 'batch', 'parts': parts, 'flush': flush})
+            meta.append({'m': 'msg', 'proto': 'batch_flush' if flush else 'batch', 'kinds': list(st['kinds']), 'sql': ' | '.join(sqls),
+                         'pos': pos, 'spelling': sp})
     return {'id': idx, 'cfg': plugin_cfg(on), 'steps': steps, 'meta': meta, 'abstract': abstract, 'on': on}
 
 
@@ -113,7 +115,7 @@ def known_verdicts(sessions, results):
         for st, meta, o in zip(s['steps'], s['meta'], r['obs']):
             nmsg = 0
             if not in_tx:
-                nmsg = 1 if st['kind'] == 'q' else sum(3 if p.get('run', True) else 1 for p in st['parts']) + 1
+                nmsg = 1 if st['kind'] == 'q' else sum(3 if p.get('run', True) else 1 for p in st['parts']) + (2 if st.get('flush') else 1)
             mine = msgs[mi:mi + nmsg]
             mi += nmsg
             if meta['m'] == 'msg' and not in_tx:
@@ -139,7 +141,7 @@ def build_trace(sessions, results):
         for st, meta, o in zip(s['steps'], s['meta'], r['obs']):
             nmsg = 0
             if not in_tx:
-                nmsg = 1 if st['kind'] == 'q' else sum(3 if p.get('run', True) else 1 for p in st['parts']) + 1
+                nmsg = 1 if st['kind'] == 'q' else sum(3 if p.get('run', True) else 1 for p in st['parts']) + (2 if st.get('flush') else 1)
             mine = msgs[mi:mi + nmsg]
             mi += nmsg
             if meta['m'] == 'set_role':
@@ -210,10 +212,10 @@ def check_c19(prop, tier, seed):
     # every position x spelling once, on its own (simple and batch), plugins on
     for pos in sorted(POSITIONS):
         for sp in sorted(IDENT_SPELLINGS):
-            for op in ('query', 'batch'):
+            for op, arg in (('query', ''), ('batch', ''), ('batch', 'flush')):
                 idx += 1
                 sessions.append(build_session(random.Random(seed * 17 + idx), idx,
-                                              [{'op': op, 'arg': '', 'kinds': ['blocked']}], True, force=(pos, sp)))
+                                              [{'op': op, 'arg': arg, 'kinds': ['blocked']}], True, force=(pos, sp)))
     for s in interesting[:n]:
         idx += 1
         on = (idx % 7) != 0
